@@ -13,6 +13,7 @@ pub mod c17;
 pub mod c18;
 pub mod c27;
 pub mod c29;
+pub mod c35;
 pub mod crash;
 
 pub struct Entry {
@@ -35,6 +36,7 @@ pub const REGISTRY: &[Entry] = &[
     Entry { id: "C18", level: "exploration", run: c18::run },
     Entry { id: "C27", level: "exploration", run: c27::run },
     Entry { id: "C29", level: "exploration", run: c29::run },
+    Entry { id: "C35", level: "exploration", run: c35::run },
 ];
 
 /// Entry point of child worker processes (`check --worker <kind> ...`).
